@@ -380,7 +380,7 @@ def run(ctx, only_cases=None):
     dist = {}
     for c, o in zip(cases, outs):
         dist[c["mode"]] = dist.get(c["mode"], 0) + 1
-        if nontrivial(c, o):
+        if o.get("prop_key") != "harness" and nontrivial(c, o):
             nontriv.add(json.dumps(c, sort_keys=True))
     trials = sum(c.get("trials", 0) for c in cases if c["mode"] in ("maprace", "regrace"))
     samples = []
